@@ -15,6 +15,7 @@ import (
 	"github.com/basecomplextech/baselibrary/ref"
 	"github.com/basecomplextech/baselibrary/status"
 	"github.com/basecomplextech/spec"
+	"github.com/basecomplextech/spec/internal/verifpoint"
 	"github.com/basecomplextech/spec/mpx"
 	"github.com/basecomplextech/spec/proto/prpc"
 )
@@ -97,6 +98,7 @@ type channelState struct {
 
 func newChannel(ch mpx.Channel, logger logging.Logger) *channel {
 	s := acquireState()
+	verifpoint.Point("pool.rpcstate.get", verifpoint.Ptr(s), s.verifDirty(), 0)
 	s.ch = ch
 	s.logger = logger
 
@@ -469,6 +471,7 @@ func acquireState() *channelState {
 }
 
 func releaseState(s *channelState) {
+	verifpoint.Point("pool.rpcstate.put", verifpoint.Ptr(s), 0, 0)
 	s.reset()
 	statePool.Put(s)
 }
